@@ -280,7 +280,7 @@ CHECKS["C14"] = {
     "level": "exploration",
     "technique": "property-based testing (rapid) of Close/constructor-failure schedules: under synctest with a goroutine census by id and a counting event bus (DHTs), and in real time with a harness-owned gate plus goroutine-state probe (buffered provider wrapper, record stores, whose Close paths wait on mutexes); drawn Close instants / overlaps, option matrices and injected constructor faults",
     "level_text": "For each component, generated option combinations, background activity and Close instants run against the real code inside a virtual-time bubble; the goroutines alive after construction are recorded by id and must all be gone when "
-                  "Close returns, every Close call and every in-flight operation must return without panic, and nothing may be left after the wind-down; constructors are failed at injected points and must leave no goroutine or subscription. The buffered wrapper and the record stores are closed 1-3 times with overlapping calls while their worker / an operation is held at a gate; no Close call may have returned while it is held; the sweeping provider is also closed over a datastore that fails during Close and with the node offline. The refresh manager runs in a bubble with dial / ping / query callbacks of drawn outcome, latency and linger (time to return once the context ended): the instant a Close call returns no callback may be in flight and no goroutine of the manager blocked. Exploration.",
+                  "Close returns, every Close call and every in-flight operation must return without panic, and nothing may be left after the wind-down; constructors are failed at injected points and must leave no goroutine or subscription. The buffered wrapper and the record stores are closed 1-3 times with overlapping calls while their worker / an operation is held at a gate; no Close call may have returned while it is held; the sweeping provider is also closed over a datastore that fails during Close and with the node offline, and its dual wrapper (one provider per swarm of a dual DHT, own or given keystore) with a request of either swarm held inside the simulated network. The refresh manager runs in a bubble with dial / ping / query callbacks of drawn outcome, latency and linger (time to return once the context ended): the instant a Close call returns no callback may be in flight and no goroutine of the manager blocked. Exploration.",
     "level_note": "Censuses are taken at quiescent points (synctest.Wait, which does not advance the clock): a goroutine that Close does not wait for but that ends without the clock advancing is not distinguished; Close instants are virtual instants, not arbitrary instructions.",
     "parts": [
         {"part": "ipfsdht", "pkg": ROOT, "test": "TestVerif_C14_IpfsDHT", "quick": 2400, "thorough": 20000},
@@ -291,6 +291,7 @@ CHECKS["C14"] = {
         {"part": "keystore", "pkg": "./provider/keystore/", "test": "TestVerif_C14_Keystore", "quick": 400, "thorough": 6000},
         {"part": "sweeping-provider", "pkg": "./provider/", "test": "TestVerif_C14_SweepingProvider", "quick": 60, "thorough": 1600},
         {"part": "dual", "pkg": "./dual/", "test": "TestVerif_C14_Dual", "quick": 600, "thorough": 3000},
+        {"part": "dual-provider", "pkg": "./provider/dual/", "test": "TestVerif_C14_DualProvider", "quick": 40, "thorough": 1200},
         {"part": "refresh-manager", "pkg": "./rtrefresh/", "test": "TestVerif_C14_RefreshManager", "quick": 800, "thorough": 10000},
     ],
 }
